@@ -6,6 +6,7 @@ from .folds import FoldRegistry
 # ---------------------------------------------------------------------------------------------
 # heap schema: field kinds of the classes handled in regime R-A ("fields have their annotated types")
 LIST = lambda k: ('listfield', k)
+MAP = lambda k, v: ('mapfield', k, v)
 SCHEMA = {
     'Relation': {'parent': REF('Feature'), 'children': LIST(REF('Feature')), 'card_min': INT, 'card_max': INT},
     'Cardinality': {'min': INT, 'max': INT},
@@ -28,6 +29,7 @@ SCHEMA = {
     'FMCoreFeatures': {'result': SEQ(REF('Feature'))},
     'UVLReader': {'path': STR, 'file': STR, 'parse_tree': PYVAL, 'namespace': STR, 'model': REF('FeatureModel')},
     'AFMReader': {'path': STR, 'parse_tree': PYVAL, 'model': REF('FeatureModel')},
+    'XMLReader': {'path': STR, 'name_feature': MAP(STR, REF('Feature'))},
     'FMMetrics': {'model': REF('FeatureModel'), '_features': SEQ(REF('Feature')), '_feature_ancestors': SEQ(INT),
                   '_constraints_per_features': SEQ(INT), '_leaf_features': SEQ(STR), 'filter': PYVAL},
 }
@@ -153,7 +155,11 @@ class Ctx:
         if key not in self.base_heap:
             fk = self.field_kind(cls, field)
             rs = self.sorts.ref(self.field_owner(cls, field))
-            if part == 'len':
+            if part == 'has':
+                fn = z3.Function(f'{cls}.{field}.has', rs, self.sorts.sort_of(fk[1]), z3.BoolSort())
+            elif part == 'val':
+                fn = z3.Function(f'{cls}.{field}.val', rs, self.sorts.sort_of(fk[1]), self.sorts.sort_of(fk[2]))
+            elif part == 'len':
                 fn = z3.Function(f'{cls}.{field}.len', rs, z3.IntSort())
             elif part == 'at':
                 fn = z3.Function(f'{cls}.{field}.at', rs, z3.IntSort(), self.sorts.sort_of(fk[1]))
